@@ -24,30 +24,26 @@ RULE = ('modules from tools/gen/irgen.py (seeded; all features incl. locals/para
         'globals, copyblob, undefined, float bit patterns, big constants) plus hand-made witnesses; per module one '
         'writer case (real dict vs model JSON) and one round-trip case (real from_json(to_json) vs model); '
         'non-trivial = module with at least one function whose real round trip terminates normally')
-EXPLANATION = ('Coq theorems about Model.IrJson (hand model of io.py; cfg_fixed = /repo now, all 8 defect switches on): '
-               'refutations of the round trip for the code as found (one well-formed witness per defect: 5 of io.py, 3 of '
-               'ir.py replace_use). Unbounded positives: types, byte blobs, constants, externals, global variables WITH '
-               'initial values; c16_instr_roundtrip (every one of the 18 instruction kinds read back in ANY reader state '
-               'with correct scopes, operands registered / pending / never seen); c16_register_spec (register_value + '
-               'replace_by = substitution of the placeholder everywhere); c16_instr_step_nodef/_def (each instruction '
-               'preserves the function invariant FInv: built prefix = original prefix with unregistered operands hidden '
-               'as placeholders, undefined_values covers them, forward-reference patching included); '
-               'c16_block_roundtrip (whole blocks); c16_reader_nonvacuous (hypotheses inhabited, with a pending '
-               'forward operand). Whole modules: c16_roundtrip_bounded (19 generated modules, vm_compute). NOT proved: the '
-               'unbounded function/module wrappers (parameters, the type pre-scan scan_value_types = vt, registration of '
-               'the subroutine name, externals/variables/subroutines folds) and the derivation of fun_ctx / seq_ok / the '
-               'initial FInv from wf_modul + ctor_ok_modul; note the unbounded module theorem needs ctor_ok_modul '
-               '(constructor type invariants of ppci.ir) besides wf_modul, since the reader re-runs the constructors.')
+EXPLANATION = ('Coq theorems about Model.IrJson (hand model of io.py; cfg_fixed = /repo now, all 8 defect switches on). '
+               'MAIN: c16_roundtrip : forall m, wf_modul m = true -> ctor_ok_modul m = true -> from_dict (to_dict m) = Ok m '
+               '(unbounded: externals, global variables with initial values, subroutines, blocks, all 18 instruction kinds, '
+               'types, constants, volatile flags; loops, shuffled block order, forward operands, recursion, calls to later '
+               'subroutines). ctor_ok_modul = the constructor invariants of ppci.ir (operand types, ptr addresses/callees, '
+               'non-empty allocs, byte literals), needed because the reader re-runs the constructors. Stages kept as '
+               'theorems: c16_instr_roundtrip, c16_register_spec/_global, c16_instr_step_*, c16_block_roundtrip, '
+               'c16_function_roundtrip, c16_subroutines_roundtrip, component round trips, non-vacuity instances. '
+               'Refutations for the code as found: one well-formed witness per defect (5 of io.py, 3 of ir.py replace_use). '
+               'c16_roundtrip_bounded (19 generated modules, vm_compute) stays as a cross-check; the corpus also satisfies '
+               'both hypotheses of c16_roundtrip (c16_nonvacuous).')
 TRUSTED = ['hand model coq/Model/IrJson.v (cross-checked against io.py on every run, both directions)',
            'tools/irimport.py (ppci.ir objects -> Coq syntax; ids in print order)',
            'json.dumps/json.loads are the identity on JSON values (floats: repr round-trips; NaN payloads excluded)',
            'Python dict lookup == first binding in an association list without duplicate keys']
-ASSUMPTIONS = ['well-formed = Spec.IRSyntax.wf_modul: names of parameters/values unique per function and disjoint from '
-               'module-level names, block names unique and disjoint from value names',
-               'forward references are covered unboundedly up to whole blocks (FInv); at function/module level only by the '
-               'bounded corpus theorem and the correspondence',
-               'the reader re-runs the ppci.ir constructors, so the unbounded statements assume Spec.IRSyntax.ctor_ok_instr '
-               '(operand types, ptr addresses/callees, non-empty allocs, byte literals)']
+ASSUMPTIONS = ['well-formed = Spec.IRSyntax.wf_modul: ids in print order, references resolve, names of parameters/values unique '
+               'per function and disjoint from module-level names, block names unique and distinct from value names '
+               '(modules with locals shadowing module-level names are covered by correspondence/search only)',
+               'Spec.IRSyntax.ctor_ok_modul: what the ppci.ir constructors enforce (true of every live module unless mutated)',
+               'the theorem is about the model; the model/implementation tie is the per-run correspondence']
 
 FLAGS = ('fix_value', 'fix_volatile', 'fix_copyblob', 'fix_undefined', 'fix_fwdtype',
          'fix_ru_generic', 'fix_ru_phi', 'fix_ru_call')
@@ -278,7 +274,7 @@ def run(ctx):
     logging.getLogger('verifier').setLevel(logging.ERROR)
 
     regen(ctx)
-    ok, _ = ctx.build(['Proofs/C16_irjson.vo', 'Proofs/C16_rd_func.vo'])
+    ok, _ = ctx.build(['Proofs/C16_irjson.vo', 'Proofs/C16_roundtrip.vo'])
     if ok:
         ctx.check_props('Props/C16.v')
 
@@ -386,16 +382,15 @@ def replay_witness(k):
 
 
 MANIFEST = {
-    'text': 'proof (partial at module level): the code as found lost Variable.value and volatile flags, could not serialise '
-            'CopyBlob/Undefined, rejected forward operands and hit three replace_use defects of ir.py (8 Coq refutations, '
-            'each witness replayed on the implementation on every run; all fixed in /repo); '
-            'on the repaired reader/writer model Coq proves (unbounded) the round trip of types, byte data, constants, '
-            'externals and initialised global variables, of every instruction kind in any scope-correct reader state, and '
-            'the preservation of the reader invariant (incl. forward-reference patching) by instructions and whole blocks; '
-            'whole modules are checked by vm_compute on a generated corpus (bounded); the unbounded function/module '
-            'wrappers are not proved',
-    'note': 'trusted: hand model Model/IrJson.v (differentially checked against io.py on ~130 modules per run in both '
-            'directions), irimport, json text layer. Not proved: function/module-level wrappers of the unbounded theorem '
-            '(parameters, type pre-scan, subroutine/global registration folds, bridging from wf_modul + ctor_ok_modul).',
-    'technique': 'hand model + Coq proof + differential correspondence',
+    'text': 'proof: unbounded Coq theorem c16_roundtrip - for every well-formed IR module that satisfies the constructor invariants '
+            'of ppci.ir, DictReader applied to the JSON value written by DictWriter reconstructs exactly the module (externals, '
+            'initialised globals, subroutines, blocks, every instruction kind, types, constants, volatile flags; forward '
+            'references and calls to later subroutines included). The code as found violated the property in 8 ways (5 in '
+            'io.py, 3 in ir.py replace_use): 8 Coq refutations, each witness replayed on the implementation on every run; all '
+            'fixed in /repo',
+    'note': 'trusted: hand model Model/IrJson.v (differentially checked against io.py in both directions on ~50 modules per '
+            'run, with per-defect switches probed on the implementation), tools/irimport.py, the json text layer '
+            '(json.dumps/loads), Coq kernel. Modules whose locals shadow module-level names are outside wf_modul and are '
+            'covered by correspondence and search only.',
+    'technique': 'hand model + Coq proof (reader-state invariants) + differential correspondence',
 }
